@@ -374,9 +374,51 @@ static void state_env(void) {
 struct ent {
     int null;
     struct ipath p, rel;
-    int t, relabs;
+    int t, relabs, pabs;
     long long sz;
 };
+/* What a path text denotes from the working directory: its directory part resolved by realpath + its last component
+ * (the entry itself is not followed if it is a symbolic link), projected below the root. {-2} if it denotes nothing. */
+static struct ipath resolve_text(const uint8_t *ptr, size_t len) {
+    struct ipath r;
+    r.n = 1;
+    r.c[0] = -2;
+    /* a copy of exactly the advertised length: a wrong length is an ASan report */
+    char *t = malloc(len + 1);
+    if (len) {
+        memcpy(t, ptr, len);
+    }
+    t[len] = 0;
+    if (len && strlen(t) == len) {
+        size_t n = len;
+        while (n > 1 && t[n - 1] == '/') {
+            t[--n] = 0;
+        }
+        char *slash = strrchr(t, '/');
+        const char *last = slash ? slash + 1 : t;
+        char *dirres = NULL;
+        if (!slash) {
+            dirres = realpath(".", NULL);
+        } else if (slash == t) {
+            dirres = strdup("/");
+        } else {
+            *slash = 0;
+            dirres = realpath(t, NULL);
+        }
+        struct stat st;
+        if (dirres && *last && strcmp(last, ".") && strcmp(last, "..")) {
+            char *full = malloc(strlen(dirres) + strlen(last) + 2);
+            sprintf(full, "%s/%s", strcmp(dirres, "/") ? dirres : "", last);
+            if (lstat(full, &st) == 0) {
+                r = project_abs(full);
+            }
+            free(full);
+        }
+        free(dirres);
+    }
+    free(t);
+    return r;
+}
 static struct ent project_entry(const struct aws_directory_entry *e) {
     struct ent r;
     memset(&r, 0, sizeof(r));
@@ -386,63 +428,17 @@ static struct ent project_entry(const struct aws_directory_entry *e) {
     }
     r.t = e->file_type;
     r.sz = (long long)e->file_size;
-    /* copies of exactly the advertised length: a wrong length is an ASan report */
-    char *a = malloc(e->path.len + 1);
-    if (e->path.len) {
-        memcpy(a, e->path.ptr, e->path.len);
-    }
-    a[e->path.len] = 0;
-    if (e->path.len == 0 || strlen(a) != e->path.len) {
-        r.p.n = 1;
-        r.p.c[0] = -2;
-    } else {
-        r.p = project_abs(a);
-    }
-    free(a);
-    char *rl = malloc(e->relative_path.len + 1);
-    if (e->relative_path.len) {
-        memcpy(rl, e->relative_path.ptr, e->relative_path.len);
-    }
-    rl[e->relative_path.len] = 0;
-    r.relabs = rl[0] == '/';
-    /* what the text denotes from the working directory: its directory part resolved by realpath + its last component
-     * (the entry itself is not followed if it is a symbolic link) */
-    r.rel.n = 1;
-    r.rel.c[0] = -2;
-    if (e->relative_path.len && strlen(rl) == e->relative_path.len) {
-        size_t n = strlen(rl);
-        while (n > 1 && rl[n - 1] == '/') {
-            rl[--n] = 0;
-        }
-        char *slash = strrchr(rl, '/');
-        const char *last = slash ? slash + 1 : rl;
-        char *dirres = NULL;
-        if (!slash) {
-            dirres = realpath(".", NULL);
-        } else if (slash == rl) {
-            dirres = strdup("/");
-        } else {
-            *slash = 0;
-            dirres = realpath(rl, NULL);
-        }
-        struct stat st;
-        if (dirres && *last && strcmp(last, ".") && strcmp(last, "..")) {
-            char *full = malloc(strlen(dirres) + strlen(last) + 2);
-            sprintf(full, "%s/%s", strcmp(dirres, "/") ? dirres : "", last);
-            if (lstat(full, &st) == 0) {
-                r.rel = project_abs(full);
-            }
-            free(full);
-        }
-        free(dirres);
-    }
-    free(rl);
+    r.pabs = e->path.len > 0 && e->path.ptr[0] == '/';
+    r.relabs = e->relative_path.len > 0 && e->relative_path.ptr[0] == '/';
+    r.p = resolve_text(e->path.ptr, e->path.len);
+    r.rel = resolve_text(e->relative_path.ptr, e->relative_path.len);
     return r;
 }
 static void log_entry(const char *k, const struct ent *e) {
     vh_obj_begin(k);
     vh_int("null", e->null);
     log_ipath("p", &e->p);
+    vh_int("pabs", e->pabs);
     vh_int("t", e->t);
     vh_int("sz", e->sz);
     log_ipath("rel", &e->rel);
